@@ -501,6 +501,11 @@ fn c19_batches(out_single: &[SpanRecord]) -> Vec<Vec<SpanRecord>> {
     }
     let large: Vec<SpanRecord> = (0..1000u64).map(|i| rec(0xABCD, i + 1, i, NOW + i, i * 1_000, &format!("span{i}"), &[("i", &i.to_string())], &[])).collect();
     v.push(large);
+    // batch sizes around round numbers and powers of two (a reporter that cuts a batch into
+    // requests / packets must not lose the remainder)
+    for n in [255u64, 256, 257, 999, 1001, 1023, 1024, 1025, 2047, 2049, 2501, 4097, 10_001] {
+        v.push((0..n).map(|i| rec(0xBA7C | ((n as u128) << 64), i + 1, 0, NOW + i, 1_000, "s", &[], &[])).collect());
+    }
     // keys and values that mean something to one of the backends (semantic conventions, reserved
     // tags, field names of the wire formats): a property is a property whatever it is called.
     // One record per (key, value), as a span property and as an event property; in two batches.
@@ -652,34 +657,45 @@ fn run_c19(thorough: bool, out: &mut Out) {
                             }
                             continue;
                         }
-                        let (line, headers, body) = match sink.rx.recv_timeout(Duration::from_secs(10)) {
-                            Ok(x) => x,
+                        // report() is synchronous: whatever it sent has been answered by now. A batch
+                        // may legitimately travel in more than one request; the records of all of
+                        // them, in order, are what was transmitted.
+                        let mut requests = Vec::new();
+                        match sink.rx.recv_timeout(Duration::from_secs(10)) {
+                            Ok(x) => requests.push(x),
                             Err(_) => {
                                 viol.push(("no-request".to_string(), input.clone(), "no HTTP request arrived".to_string()));
                                 continue;
                             }
-                        };
-                        if !line.starts_with("POST /v0.4/traces ") {
-                            viol.push(("request-line".into(), input.clone(), line.clone()));
                         }
-                        if headers.get("content-type").map(|s| s.as_str()) != Some("application/msgpack") {
-                            viol.push(("content-type".into(), input.clone(), format!("{headers:?}")));
+                        while let Ok(x) = sink.rx.try_recv() {
+                            requests.push(x);
                         }
-                        match decode_dd(&body) {
-                            Err(e) => viol.push(("malformed".into(), input.clone(), format!("body is not a well-formed v0.4 trace array: {e}"))),
-                            Ok(traces) => {
-                                classes.insert(format!("datadog:{}", input.len().min(4)));
-                                let got: Vec<DSpan> = traces.into_iter().flatten().collect();
-                                let want: Vec<DSpan> = input.iter().map(dd_image).collect();
-                                if got.len() != want.len() {
-                                    viol.push(("count".into(), input.clone(), format!("{} spans for {} records", got.len(), want.len())));
-                                } else if let Some((g, w)) = got.iter().zip(want.iter()).find(|(g, w)| g != w) {
-                                    viol.push((dd_field_diff(g, w), input.clone(), format!("received {g:?}\nexpected {w:?}")));
+                        let mut got: Vec<DSpan> = Vec::new();
+                        let mut well_formed = true;
+                        for (line, headers, body) in &requests {
+                            if !line.starts_with("POST /v0.4/traces ") {
+                                viol.push(("request-line".into(), input.clone(), line.clone()));
+                            }
+                            if headers.get("content-type").map(|s| s.as_str()) != Some("application/msgpack") {
+                                viol.push(("content-type".into(), input.clone(), format!("{headers:?}")));
+                            }
+                            match decode_dd(body) {
+                                Err(e) => {
+                                    well_formed = false;
+                                    viol.push(("malformed".into(), input.clone(), format!("body is not a well-formed v0.4 trace array: {e}")));
                                 }
+                                Ok(traces) => got.extend(traces.into_iter().flatten()),
                             }
                         }
-                        if sink.rx.try_recv().is_ok() {
-                            mach.push("more than one request per report".to_string());
+                        if well_formed {
+                            classes.insert(format!("datadog:{}", input.len().min(4)));
+                            let want: Vec<DSpan> = input.iter().map(dd_image).collect();
+                            if got.len() != want.len() {
+                                viol.push(("count".into(), input.clone(), format!("{} spans in {} request(s) for {} records", got.len(), requests.len(), want.len())));
+                            } else if let Some((g, w)) = got.iter().zip(want.iter()).find(|(g, w)| g != w) {
+                                viol.push((dd_field_diff(g, w), input.clone(), format!("received {g:?}\nexpected {w:?}")));
+                            }
                         }
                     }
                     (evals, viol, mach, classes)
@@ -913,7 +929,7 @@ fn main() {
     let (rule, assumptions): (&str, Vec<&str>) = if prop == "C19" {
         run_c19(tier == "thorough", &mut out);
         (
-            "every single-record batch over the product of field alphabets (6 trace ids incl. top bits, 5 span/parent id pairs incl. top bits, 5 names incl. empty/2-byte/4-byte/300 B, 5 property lists incl. duplicate and empty keys, 4 event lists, 7 begin times, 5 durations) through the Jaeger and OpenTelemetry reporters, through the Datadog reporter (about a CPU-second per report) the full product of a reduced alphabet in the thorough tier and, in the quick tier, trace ids x id pairs in full plus every other field varied one at a time; all batches of <= 3 records over 6 shapes, the empty batch, a 1000-record batch and two batches with one record per (key, value) over 53 keys that mean something to a backend (span.kind, error, otel.status_code, service.name, resource.name, sampling.priority, field names of the wire formats, ...) x 9 values, as span properties and as event properties, through all three; distinct_nontrivial counts distinct (reporter, batch size, datagram count) classes",
+            "every single-record batch over the product of field alphabets (6 trace ids incl. top bits, 5 span/parent id pairs incl. top bits, 5 names incl. empty/2-byte/4-byte/300 B, 5 property lists incl. duplicate and empty keys, 4 event lists, 7 begin times, 5 durations) through the Jaeger and OpenTelemetry reporters, through the Datadog reporter (about a CPU-second per report) the full product of a reduced alphabet in the thorough tier and, in the quick tier, trace ids x id pairs in full plus every other field varied one at a time; all batches of <= 3 records over 6 shapes, the empty batch, a 1000-record batch, batches of 255..10001 records (13 sizes around round numbers and powers of two) and two batches with one record per (key, value) over 53 keys that mean something to a backend (span.kind, error, otel.status_code, service.name, resource.name, sampling.priority, field names of the wire formats, ...) x 9 values, as span properties and as event properties, through all three; distinct_nontrivial counts distinct (reporter, batch size, datagram count) classes",
             vec!["target-format images follow the statement: microseconds in Jaeger, low 64 bits of the trace id + last value per key + no events in Datadog", "loopback UDP loss is ruled out by the socket's drop counter in /proc/net/udp (a drop is a machinery failure, exit 2)", "environment failures (socket errors, HTTP failures) are not in the alphabet"],
         )
     } else {
